@@ -430,4 +430,80 @@ theorem EIter.window_new (e : Nat) :
   have := EIter.window_from e 0
   simpa [EIter.from, EIter.new] using this
 
+
+/-! ### `BitPage::iter` / `iter().rev()` over the element machine -/
+
+theorem flatMap_congr' {α β : Type} (l : List α) (f g : α → List β) (h : ∀ x ∈ l, f x = g x) :
+    l.flatMap f = l.flatMap g := by
+  induction l with
+  | nil => rfl
+  | cons a l ih =>
+    rw [List.flatMap_cons, List.flatMap_cons, h a (by simp), ih (fun x hx => h x (by simp [hx]))]
+
+theorem flatMap_filter' {α β : Type} (l : List α) (p : α → Bool) (f : α → List β) :
+    (l.filter p).flatMap f = l.flatMap (fun x => if p x then f x else []) := by
+  induction l with
+  | nil => rfl
+  | cons a l ih =>
+    rw [List.filter_cons]
+    by_cases hp : p a = true
+    · simp [hp, ih]
+    · simp [hp, ih]
+
+theorem zipIdx_flatMap (G : Nat → Nat → List Nat) (es : List Nat) (k : Nat) :
+    (es.zipIdx k).flatMap (fun ei => G ei.2 ei.1) =
+      (List.range es.length).flatMap (fun i => G (i + k) (es.getD i 0)) := by
+  induction es generalizing k with
+  | nil => simp
+  | cons e es ih =>
+    rw [List.zipIdx_cons, List.flatMap_cons, ih, List.length_cons, List.range_succ_eq_map,
+      List.flatMap_cons, List.flatMap_map]
+    simp only [Nat.zero_add, List.getD_cons_zero]
+    congr 1
+    apply flatMap_congr'
+    intro i _
+    have : i + (k + 1) = i.succ + k := by omega
+    rw [this]
+    simp
+
+/-- one element of `BitPage::iter`: `Iter::new(elem).map(|idx| base + idx)` yields the members of the
+word, offset by its base (and nothing for a zero word, so the `filter` changes nothing) -/
+theorem elemIter_eq (e i : Nat) (he : e < 2 ^ 64) :
+    (EIter.new e).toList.map (fun idx => i * 64 + idx) = elemMembers (i * 64) e := by
+  rw [EIter.toList_eq _ (EIter.new_ok e he), EIter.window_new, elemMembers_eq]
+  apply List.map_congr_left
+  intro a _; omega
+
+theorem elemMembers_zero (b : Nat) : elemMembers b 0 = [] := by simp [elemMembers]
+
+theorem CPage.iterM_eq (p : CPage) (h : CPageOk p) : p.iterM = pageMembers p.abs.bits := by
+  unfold CPage.iterM
+  rw [flatMap_filter']
+  have h1 : p.elems.zipIdx.flatMap (fun ei => if (ei.1 != 0) = true then
+        (EIter.new ei.1).toList.map (fun idx => ei.2 * 64 + idx) else []) =
+      p.elems.zipIdx.flatMap (fun ei => (fun i e => elemMembers (i * 64) e) ei.2 ei.1) := by
+    apply flatMap_congr'
+    intro ei hei
+    have he := h.2.1 _ (List.fst_mem_of_mem_zipIdx hei)
+    by_cases hz : ei.1 = 0
+    · simp [hz, elemMembers_zero]
+    · rw [if_pos (by simpa using hz)]
+      exact elemIter_eq _ _ he
+  rw [h1, zipIdx_flatMap (fun i e => elemMembers (i * 64) e) p.elems 0, h.1]
+  unfold pageMembers
+  apply flatMap_congr'
+  intro i _
+  show elemMembers ((i + 0) * 64) _ = elemMembers (i * 64) (pack p.elems / 2 ^ (i * 64) % 2 ^ 64)
+  rw [pack_elem _ h.2.1, Nat.add_zero]
+
+theorem CPage.iterRevM_eq (p : CPage) (h : CPageOk p) : p.iterRevM = (pageMembers p.abs.bits).reverse := by
+  rw [← CPage.iterM_eq p h]
+  unfold CPage.iterM CPage.iterRevM
+  rw [List.reverse_flatMap]
+  apply flatMap_congr'
+  intro ei hei
+  rw [List.mem_reverse, List.mem_filter] at hei
+  have he := h.2.1 _ (List.fst_mem_of_mem_zipIdx hei.1)
+  simp only [Function.comp]
+  rw [EIter.toListRev_eq _ (EIter.new_ok _ he), EIter.toList_eq _ (EIter.new_ok _ he), List.map_reverse]
 end FontVerif.IntSet
